@@ -72,8 +72,16 @@ Definition quick_raw_ip (f : bytes) : option endpoints :=
 Definition null_family (f : bytes) : N :=
   byte_at f 0 + 256 * byte_at f 1 + 65536 * byte_at f 2 + 16777216 * byte_at f 3.
 
+(* try_null_datalink (after fix 3908c86): a frame carrying the signature the analyzer looks for
+   (>= 24 bytes, 1e 00) is decoded by the version nibble of the inner header, whatever bytes 2..3
+   say, and never falls through to the family word; every other frame by the family word *)
 Definition quick_null (f : bytes) : option endpoints :=
   if (length f <? 4)%nat then None
+  else if (24 <=? length f)%nat && (byte_at f 0 =? 30) && (byte_at f 1 =? 0) then
+    let inner := skipn 4 f in
+    if version_of inner =? 4 then quick_ipv4 inner
+    else if version_of inner =? 6 then quick_ipv6 inner
+    else None
   else if null_family f =? 2 then quick_ipv4 (skipn 4 f)
   else if (null_family f =? 30) || (null_family f =? 28) then quick_ipv6 (skipn 4 f)
   else None.
@@ -177,18 +185,3 @@ Definition analyzer_endpoints (f : bytes) : option endpoints :=
 Definition parse_path (f : bytes) : option link := option_map fst (parse_packet f).
 
 Definition is_some {A} (o : option A) : bool := match o with Some _ => true | None => false end.
-
-(* ------------------------------------------------------------------ *)
-(* Known defect class of C15 (open): the analyzer decodes a frame as BSD loopback on the
-   signature 1e 00 alone and takes the IP version from the inner header, while raw_filter reads
-   the whole 4-byte family word and maps 30 and 28 to IPv6 and 2 to IPv4.  The two agree only on
-   1e 00 00 00 + IPv6.  Every other frame the analyzer analyses through this path is either not
-   recognised by the filter (fail-open: analysed whatever the filter says) or is judged on bytes
-   of an IPv4 header read as if they were IPv6. *)
-Definition loopback_mismatch (f : bytes) : bool :=
-  match parse_packet f with
-  | Some (LNull, v) =>
-      is_some (view_endpoints v)
-      && negb ((null_family f =? 30) && match v with View6 _ => true | View4 _ => false end)
-  | _ => false
-  end.
